@@ -310,6 +310,12 @@ def op? (ws : List String) : Option (Op Sym Tok) :=
   | ["clip", f, lo, hi] => do let f ← freq? f; let lo ← optInt? lo; let hi ← optInt? hi; pure (.clip f lo hi)
   | ["prepend", o, f, stop] => do let o ← symBox? o; let f ← freq? f; let stop ← stop.toInt?; pure (.prepend o f stop)
   | "merge" :: st :: others => do let st ← strategy? st; let os ← others.mapM symBox?; pure (.merge os st)
+  | "mergecall" :: ex :: lg :: others => do
+    -- `merge(others, <explicit or ->, action=<legacy or ->)`: the model resolves the strategy itself
+    let ex ← (if ex = "-" then some none else (strategy? ex).map some)
+    let lg ← (if lg = "-" then some none else (strategy? lg).map some)
+    let os ← others.mapM symBox?
+    pure (.merge os (resolveStrategy ex lg))
   | _ => none
 
 def runOp (db : Box Sym Tok) (op : Op Sym Tok) : String :=
